@@ -105,6 +105,8 @@ void GridFourier::updateGrid(int depth, TypeDepth type, const std::vector<int> &
         if (!new_tensors.empty()){
             updated_tensors += tensors;
             proposeUpdatedTensors();
+        }else{
+            updated_tensors = MultiIndexSet(); // nothing new is proposed, do not keep a pending update without active tensors
         }
     }
 }
